@@ -315,13 +315,15 @@ theorem tickConds_pin : Gen.tickConds = expectedTickConds := by rfl
 /-- the queues around the kernel, as `Sys.step` models them: `EnqueueSQE` answers "shutting down" once shutdown was requested,
     else enqueues when there is room, else answers "queue full" (`Choice.submit`); `Done` = shutdown requested and queue empty
     (`apiDone && apiQ.isEmpty`); `DequeueSQE` / `DequeueCQE` take the buffered entry first, then what the channel holds
-    (`dequeueCount`, `cq.take`); `Dispatch` hands a submission to its subsystem and `Flush` flushes every subsystem. -/
+    (`dequeueCount`, `cq.take`); `Dispatch` hands a submission to its subsystem and `Flush` flushes every subsystem; `Loop` reads the wall clock afresh
+    before every `Tick`, whichever signal woke it (C02: a request is handled at an instant between its submission and its response). -/
 def expectedQueueShapes : List (String × String × String × String) := [
   ("internal/api/api.go", "EnqueueSQE", "util.Assert util.Assert sqe.Submission.Kind.String util.Assert util.Assert errors.As error.Code res.Status sqe.Submission.Kind.String strconv.Itoa int sqe.Submission.Kind.String callback sqe.Callback t_api.NewError sqe.Callback t_api.NewError", "err != nil ;; a.done ;; select: a.sq <- sqe ;; select-default"),
   ("internal/api/api.go", "DequeueSQE", "append len append", "a.buffer != nil ;; select: sqe, ok := <-a.sq ;; !ok ;; select-default"),
   ("internal/api/api.go", "EnqueueCQE", "util.Assert util.Assert cqe.Callback", ""),
   ("internal/api/api.go", "Shutdown", "", ""),
   ("internal/api/api.go", "Done", "len", ""),
+  ("internal/kernel/system/system.go", "Loop", "close s.Tick time.Now().UnixMilli time.Now s.Done s.aio.Shutdown s.scheduler.Shutdown make s.api.Signal s.aio.Signal time.After close", "s.Done() ;; select: <-apiSignal ;; select: <-aioSignal ;; select: <-s.shortCircuit ;; select: <-time.After(s.config.SignalTimeout)"),
   ("internal/kernel/system/system.go", "Done", "s.api.Done s.scheduler.Size", ""),
   ("internal/kernel/system/system.go", "Shutdown", "s.api.Shutdown close", ""),
   ("internal/aio/aio.go", "EnqueueCQE", "util.Assert", ""),
